@@ -14,7 +14,10 @@ TRUSTED_EXTRA = [
     "rustc overflow checks modelled as: `<<`/`>>` panic iff amount >= width, `-` iff negative, only in the debug profile; indexing and unwrap() of the size check panic in both",
 ]
 RULE = ("portable back end (GenericMachine, feature no_simd), debug and release: every (type, method) of the 10 vector types "
-        "and 3 storage types; operands: zero, all-ones, byte-index pattern, high-bit patterns, carry chains, seeded random, "
+        "and 3 storage types, incl. `&=` / `|=` / `^=` on all ten types (every soft.rs x2/x4 wrapper), UnsafeFrom::unsafe_from of x2 / x4, "
+        "Default and == of vec128/256/512_storage (pairs differing in one walked bit, the two sides built through different word views); "
+        "operands: zero, all-ones, byte-index pattern, high-bit patterns, carry chains, seeded random, rhs-identity pairs (all-ones / zero against "
+        "the byte-index pattern: every rhs lane different, the result is the rhs), "
         "walking-one basis (every bit for 128-bit types, every 7th bit for wider types in the quick tier, every bit in thorough); "
         "distinct = distinct (type, op, parameter, operands); non-trivial = some operand byte non-zero; "
         "implementation result compared with the model and with the lane-wise contract inside coqc")
